@@ -212,7 +212,8 @@ func randValueFor(r *hx.Rng, fd protoreflect.FieldDescriptor) protoreflect.Value
 func isDefault(fd protoreflect.FieldDescriptor, v protoreflect.Value) bool {
 	switch fd.Kind() {
 	case protoreflect.MessageKind:
-		return false
+		// an empty message value may be left out of a map entry
+		return proto.Size(v.Message().Interface()) == 0
 	case protoreflect.StringKind:
 		return v.String() == ""
 	case protoreflect.BytesKind:
